@@ -105,3 +105,48 @@ func VerifRaffleState(runner *Runner) (ticketsFull int, ticketsIncr int, running
 	}
 	return runner.raffle.ticketsFull, runner.raffle.ticketsIncr, running
 }
+
+// ---- raffle (C11) ----
+
+type VerifRaffle struct {
+	r       *raffle
+	tickets map[string]*ticket
+}
+
+func NewVerifRaffle(runner *Runner, poolFull, poolIncr int) *VerifRaffle {
+	return &VerifRaffle{r: NewRaffle(poolFull, poolIncr, runner.logger, runner.statsdClient), tickets: map[string]*ticket{}}
+}
+
+func (v *VerifRaffle) Borrow(id string, full bool) bool {
+	var p Pipeline
+	if full {
+		p = &FullSyncPipeline{}
+	} else {
+		p = &IncrementalPipeline{}
+	}
+	t := v.r.borrowTicket(&job{id: id, title: id, pipeline: p})
+	if t == nil {
+		return false
+	}
+	v.tickets[id] = t
+	return true
+}
+
+// Return gives back the outstanding ticket of id (if any); reports whether there was one.
+func (v *VerifRaffle) Return(id string) bool {
+	t, ok := v.tickets[id]
+	if !ok {
+		return false
+	}
+	delete(v.tickets, id)
+	v.r.returnTicket(t)
+	return true
+}
+
+func (v *VerifRaffle) State() (int, int, map[string]bool) {
+	running := map[string]bool{}
+	for k, st := range v.r.getRunningJobs() {
+		running[k] = st.isFull
+	}
+	return v.r.ticketsFull, v.r.ticketsIncr, running
+}
